@@ -65,7 +65,7 @@ def plan_C08(tier):
             {"name": "faults", "cfg": {}, "runs": n - n // 4, "batch": 20},
         ] + ([{"name": "long_histories", "cfg": {"force": {"nops": 90, "prelude": 300, "state_rate": 0.2, "variant_rate": 0.25, "repeat_rate": 0.15}},
                "runs": n // 10, "batch": 10}] if tier == "thorough" else []),
-        "budget_s": scale(tier, 42, 1500),
+        "budget_s": scale(tier, 38, 1500),
     }
 
 
@@ -98,7 +98,7 @@ def plan_C20(tier):
             {"name": "preemption_sweep", "cfg": {"sweep": True, "sweep_cap": scale(tier, 40, 150)}, "runs": scale(tier, 50, 6000), "batch": 2, "weight": scale(tier, 8.0, 3.0)},
         ] + ([{"name": "many_threads", "cfg": {"force": {"nthreads": 5, "ops_per_thread": 12, "long_rate": 0.3, "repeat_rate": 0.25}},
                "runs": n // 10, "batch": 10}] if tier == "thorough" else []),
-        "budget_s": scale(tier, 42, 1500),
+        "budget_s": scale(tier, 36, 1500),
     }
 
 
